@@ -1304,8 +1304,19 @@ impl<'r> Lowerer<'r> {
 
         self.new_block(lbl_condition);
 
+        // The condition is evaluated on every iteration, so its temporaries
+        // get their own frame that is dropped every time, before we enter the
+        // body or leave the loop.
+        self.stack_slots.push(Vec::new());
+
         let examinee = self.expr(condition);
         let examinee = self.assign_to_var(examinee, TyRef::BOOL);
+        self.remove_live_variable(&examinee);
+
+        let to_drop = self.stack_slots.pop().unwrap();
+        for (var, ty) in to_drop.into_iter().rev() {
+            self.emit_drop(Place::new(var, ty), ty);
+        }
 
         self.emit_switch(examinee, vec![(1, lbl_body)], Some(lbl_cont));
 
